@@ -1,4 +1,5 @@
 """C04 -- no capacity lost: Spec replay of pool/collection logs (capacity compared after every operation)"""
+from vlib import smallgen
 from vlib import build, runner
 from checks import poolrun
 
@@ -79,6 +80,9 @@ def run(ctx):
             sc = gen_list_script(ctx.rng, kind)
             for c in cfgs:
                 cases.append(dict(exe=ex_list[c], script=sc, replay_args=['ordered', topic], tag=('list', sc.split('\n')[0], c)))
+        sc = smallgen.gen_small_chunks(ctx.rng, bads=False)
+        for c in cfgs:
+            cases.append(dict(exe=ex_list[c], script=sc, replay_args=['ordered', 'small'], tag=('list', sc.split('\n')[0], c)))
     res = runner.run_cases(cases, rexe)
     ops = arrays = grows = 0; div = 0; per = {}
     for r in res:
@@ -97,7 +101,7 @@ def run(ctx):
                           dict(harness='h_pool.cpp', config=c, script=r['case']['script'].split('\n'), all=msgs[:5]))
     ctx.tie_broken = ctx.tie_broken[:6]
     ctx.cov.update(dict(
-        tie=dict(kind='Spec acceptance: every result must be a run of free nodes of a range handed to the list (insert hook), capacity_left / pool_capacity_left / next_capacity compared with the model after every operation, growth only when the list is empty; the real free_memory_list and ordered_free_memory_list driven directly in lock-step with UnorderedList / OrderedList (every node in link order, cursor, which run an array request takes)',
+        tie=dict(kind='Spec acceptance: every result must be a run of free nodes of a range handed to the list (insert hook), capacity_left / pool_capacity_left / next_capacity compared with the model after every operation, growth only when the list is empty; the real free_memory_list, ordered_free_memory_list and small_free_memory_list driven directly in lock-step with UnorderedList / OrderedList / SmallList (every node in link order, cursors, which run an array request takes, chunk order and free chains)',
                  configs=cfgs, histories_by_kind=per, histories=len(cases), operations=ops, array_requests=arrays, growths=grows, divergences=div),
         evaluations=len(cases), distinct_nontrivial=len(set(c['script'] for c in cases)),
         rule='seeded interleavings of node/array allocate/release through allocator_traits and composable traits on memory_pool<node|array|small> and memory_pool_collection<.., identity|log2> over growing/fixed sources, element sizes that round to a different node count, fill-to-exhaustion phases, object below/above its memory; distinct = distinct scripts'))
